@@ -598,8 +598,15 @@ def search_identities(ctx, rng, n_per_class, viol):
                         viol.append({"key": key, "what": what, "case": {**case, "lag": float(r[fin][i]),
                                      "got": float(np.asarray(a)[fin][i]), "want": float(np.asarray(b)[fin][i])}})
                 if not fin.all():
-                    viol.append({"key": f"nonfinite:{name}", "what": "correlation is not finite",
+                    viol.append({"key": {"JBessel": "closed-form:JBessel:underflow-small-h",
+                                         "Integral": "small-lag-breakdown:Integral"}.get(name, f"nonfinite:{name}"),
+                                 "what": "correlation is not finite",
                                  "case": {**case, "lag": float(r[~fin][0])}})
+                ev += 1
+                if fin.any() and np.max(np.abs(cor[fin])) > 1 + 1e-9:
+                    i = int(np.argmax(np.abs(np.where(fin, cor, 0.0))))
+                    viol.append({"key": f"correlation-exceeds-one:{name}", "what": "|correlation| > 1",
+                                 "case": {**case, "lag": float(r[i]), "got": float(cor[i])}})
                 chk(f"identity:variogram:{name}", "variogram != var + nugget - covariance", vario, sill - cov, sill)
                 chk(f"identity:covariance:{name}", "covariance != var * correlation", cov, m.var * cor, m.var)
                 if m.len_rescaled != m.len_scale / m.rescale:
@@ -742,12 +749,13 @@ def search_closed_forms(ctx, rng, n_per_class, viol):
                 rtol, atol = CF_TOL.get(name, (1e-12, 8 * EPS))
                 err = np.abs(got - want)
                 bad = ~(err <= rtol * np.abs(want) + atol)
+                err = np.where(np.isnan(err), np.inf, err)
                 w = float(np.max(err / (rtol * np.abs(want) + atol + 1e-320)))
                 worst[name] = max(worst.get(name, 0.0), w)
                 if bad.any():
                     i = int(np.argmax(err - rtol * np.abs(want)))
                     key = f"closed-form:{name}"
-                    if name == "JBessel" and got[i] == 0.0 and want[i] > 0.5:
+                    if name == "JBessel" and want[i] > 0.5 and not got[i] > 0.0:
                         key = "closed-form:JBessel:underflow-small-h"
                     viol.append({"key": key, "what": "correlation differs from the documented formula (mpmath, 30 digits)",
                                  "case": {"cls": name, "dim": dim, "kw": {**common, **opt}, "lag": float(r[i]), "h": float(r[i] / L),
@@ -876,11 +884,81 @@ def dedup(viol, per_key=2):
     return out, seen
 
 
+def directed(ctx, viol):
+    """corpus of past findings (fixed inputs, no randomness), replayed first on every run; every entry is a concrete
+    input on which the property fails on the pinned tree — a repaired tree makes the entry silent"""
+    import mpmath as mp
+    gs = _gs()
+    ev = 0
+    with warnings.catch_warnings(), np.errstate(all="ignore"):
+        warnings.simplefilter("ignore")
+        # D11 / D12: reported integral scale vs integral of the correlation the class evaluates
+        for name, kw, key in (("JBessel", dict(dim=1, nu=0.5, len_scale=2.0), "integral-scale:JBessel"),
+                              ("JBessel", dict(dim=2, nu=1.0, len_scale=2.0), "integral-scale:JBessel"),
+                              ("Matern", dict(dim=2, nu=25.0, len_scale=2.0), "integral-scale:Matern-nu>20")):
+            m = getattr(gs, name)(**kw)
+            rep = float(m.integral_scale)
+            truth = float(exact_integral_scale(name, m, None))
+            ev += 1
+            if abs(rep - truth) > 1e-6 * truth:
+                viol.append({"key": key, "what": "integral_scale is not the integral of the correlation over all lags",
+                             "case": {"cls": name, "dim": kw["dim"], "kw": {k: v for k, v in kw.items() if k != "dim"},
+                                      "reported": rep, "integral_of_correlation": truth}})
+        # K1: cor ignores len_low
+        for name, kw in (("TPLGaussian", dict(dim=2, len_scale=3.0, len_low=2.0, hurst=0.4)),
+                         ("TPLExponential", dict(dim=2, len_scale=3.0, len_low=2.0, hurst=0.4)),
+                         ("TPLStable", dict(dim=2, len_scale=3.0, len_low=2.0, hurst=0.4, alpha=1.5))):
+            m = getattr(gs, name)(**kw)
+            r = np.array([1.0, 3.0])
+            a, b = m.correlation(r), m.cor(r / m.len_rescaled)
+            ev += 1
+            if np.max(np.abs(a - b)) > 1e-12:
+                viol.append({"key": "identity:cor-vs-correlation:TPL-len_low>0", "what": "correlation(r) != cor(rescale * r / len_scale)",
+                             "case": {"cls": name, "dim": 2, "kw": {k: v for k, v in kw.items() if k != "dim"}, "lag": 1.0,
+                                      "got": float(a[0]), "want": float(b[0])}})
+        # N1 / N2: correlation collapses (0 / nan) at small positive lags
+        for name, kw, lag, key in (("JBessel", dict(dim=3, nu=45.0, len_scale=1.0), 1e-6, "closed-form:JBessel:underflow-small-h"),
+                                   ("JBessel", dict(dim=3, nu=45.0, len_scale=1.0), 1e-7, "closed-form:JBessel:underflow-small-h"),
+                                   ("Integral", dict(dim=2, nu=49.5, len_scale=1.0), 1e-7, "small-lag-breakdown:Integral")):
+            m = getattr(gs, name)(**kw)
+            c = float(m.correlation(np.array([lag]))[0])
+            ev += 1
+            if not c > 0.999999:
+                viol.append({"key": key, "what": f"correlation({lag}) = {c} (documented formula: 1 - O(1e-12))",
+                             "case": {"cls": name, "dim": kw["dim"], "kw": {k: v for k, v in kw.items() if k != "dim"}, "lag": lag, "got": c}})
+        # N3: two isclose windows of the TPL models
+        for name, kw in (("TPLGaussian", dict(dim=1, hurst=0.15, len_low=0.1, len_scale=0.4)),
+                         ("TPLExponential", dict(dim=1, hurst=0.15, len_low=0.1, len_scale=0.4)),
+                         ("TPLStable", dict(dim=1, hurst=0.15, alpha=1.5, len_low=0.1, len_scale=0.4))):
+            m = getattr(gs, name)(**kw)
+            c = np.asarray(m.correlation(np.array([2e-9, 4e-9])), float)
+            ev += 1
+            if np.max(np.abs(c)) > 1 + 1e-9:
+                viol.append({"key": f"correlation-exceeds-one:{name}", "what": f"correlation([2e-9, 4e-9]) = {c.tolist()} > 1",
+                             "case": {"cls": name, "dim": 1, "kw": {k: v for k, v in kw.items() if k != "dim"}, "lag": 4e-9, "got": float(c[1])}})
+        # K3: percentile_scale
+        for name, kw, per in (("TPLSimple", dict(dim=3, len_scale=10.0, nu=50.0), 0.5), ("JBessel", dict(dim=3, len_scale=10.0, nu=5.0), 0.9),
+                              ("TPLSimple", dict(dim=3, len_scale=10.0, nu=5.0), 0.9)):
+            m = getattr(gs, name)(**kw)
+            x = float(m.percentile_scale(per))
+            g = float(m.variogram(np.array([x]))[0])
+            ev += 1
+            case = {"cls": name, "dim": 3, "kw": {k: v for k, v in kw.items() if k != "dim"}, "per": per, "scale": x, "variogram": g,
+                    "want": per}
+            if abs(g - per) > 1e-6:
+                viol.append({"key": "percentile-scale:unconverged-root", "case": case,
+                             "what": "variogram(percentile_scale(per)) != nugget + per * var (scipy root did not converge)"})
+            elif x < 0:
+                viol.append({"key": "percentile-scale:negative-root", "case": case, "what": "percentile_scale(per) is a negative lag"})
+    return ev
+
+
 def search(ctx, deep=False):
     rng = np.random.RandomState(ctx.seed + 3003)
     viol = []
     mult = 3 if deep else 1
-    ev = search_identities(ctx, rng, ctx.scale(4, 40) * mult, viol)
+    ev = directed(ctx, viol)
+    ev += search_identities(ctx, rng, ctx.scale(4, 40) * mult, viol)
     ev += search_user_routes(ctx, rng, ctx.scale(10, 100) * mult, viol)
     e2, worst = search_closed_forms(ctx, rng, ctx.scale(3, 40) * mult, viol)
     ev += e2
